@@ -55,6 +55,13 @@ func genRace(g *gen, n int, tier string, w *bufio.Writer) {
 		}
 	}
 	fmt.Fprintf(w, "# case %d\ncloseflush n=%d\n", n, 3+g.intn(5))
+	// first-use races: many FRESH engines, on each a crowd of goroutines released together performs the first call of every
+	// kind (lazily created counters, maps and caches are initialised under contention exactly once per engine lifetime)
+	engines := 90
+	if tier == "thorough" {
+		engines = 1200
+	}
+	fmt.Fprintf(w, "# case %d\nrace cold=1 seed=%d engines=%d threads=%d field=other known=\n", n+1, g.intn(1<<30), engines, g.pick(16, 24, 32))
 }
 
 // closeFlush: Engine.Close while the flush goroutine is between the WAL pointer swap and the close of the old log (held
@@ -388,7 +395,104 @@ type raceWatch struct {
 	since atomic.Int64
 }
 
+// coldChild: first-use contention on fresh engines (see genRace)
+func coldChild(r *runner, p map[string]string) {
+	seed, threads, engines := int64(atoi(p["seed"])), atoi(p["threads"]), atoi(p["engines"])
+	var total atomic.Int64
+	t0 := time.Now()
+	for n := 0; n < engines && time.Since(t0) < 4*time.Minute; n++ {
+		dir, err := os.MkdirTemp(os.Getenv("VERIF_RACE_DIR"), "cold-")
+		if err != nil {
+			r.emit("panic tempdir")
+			return
+		}
+		e, err := openLinEngine(dir, 1<<20, "none")
+		if err != nil {
+			r.emit("panic open_" + errTok(err))
+			return
+		}
+		var ready, goFlag atomic.Int32
+		var wg sync.WaitGroup
+		kind := int(seed+int64(n)) % 6
+		for t := 0; t < threads; t++ {
+			wg.Add(1)
+			go func(t int) {
+				defer wg.Done()
+				defer func() {
+					if x := recover(); x != nil {
+						buf := make([]byte, 1<<16)
+						os.Stderr.Write(buf[:runtime.Stack(buf, false)])
+						r.emit("panic " + strings.ReplaceAll(fmt.Sprint(x), " ", "_") + fmt.Sprintf("_first-use-kind=%d", kind))
+						r.out.Flush()
+						os.Exit(3)
+					}
+				}()
+				ready.Add(1)
+				for goFlag.Load() == 0 { // spin barrier: everybody leaves within a few hundred nanoseconds
+				}
+				missing := []byte(fmt.Sprintf("missing-%d", t%3))
+				// every goroutine performs THE SAME first call (the window of a lazily created per-kind object is one call wide)
+				switch kind {
+				case 0:
+					e.Get(missing)
+				case 1:
+					e.IsDeleted(missing)
+				case 2:
+					e.Put([]byte("k"), []byte("v"))
+				case 3:
+					e.Delete(missing)
+				case 4:
+					e.GetStats()
+				default:
+					if tx, err := e.BeginTransaction(true); err == nil {
+						tx.Get(missing)
+						tx.Commit()
+					}
+				}
+				// ... followed by a mixed second round
+				switch (t + n) % 5 {
+				case 0:
+					e.Get(missing)
+				case 1:
+					e.GetStats()
+				case 2:
+					if it, err := e.GetIterator(); err == nil {
+						it.SeekToFirst()
+					}
+				case 3:
+					e.IsDeleted(missing)
+				default:
+					e.Put(missing, []byte("x"))
+				}
+				total.Add(2)
+			}(t)
+		}
+		for int(ready.Load()) < threads {
+			runtime.Gosched()
+		}
+		goFlag.Store(1)
+		done := make(chan struct{})
+		go func() { wg.Wait(); close(done) }()
+		select {
+		case <-done:
+		case <-time.After(60 * time.Second):
+			buf := make([]byte, 4<<20)
+			os.Stderr.Write(buf[:runtime.Stack(buf, true)])
+			r.emit("hang first-use")
+			r.out.Flush()
+			os.Exit(3)
+		}
+		e.Close()
+		os.RemoveAll(dir)
+	}
+	r.emit(fmt.Sprintf("done ops=%d errs=0 cold=1", total.Load()))
+}
+
 func raceChild(r *runner, p map[string]string) {
+	if p["cold"] != "" {
+		coldChild(r, p)
+		return
+	}
 	seed, threads, nops := int64(atoi(p["seed"])), atoi(p["threads"]), atoi(p["ops"])
 	dir, err := os.MkdirTemp(os.Getenv("VERIF_RACE_DIR"), "db-")
 	if err != nil {
